@@ -2,6 +2,7 @@ package main
 
 import (
 	"bytes"
+	"encoding/base64"
 	"fmt"
 	"os"
 	"os/exec"
@@ -39,6 +40,7 @@ func init() {
 			return "entry point does not fail cleanly: " + f[0]
 		},
 		classByDirection: true,
+		limit:            5 * time.Minute, // a case may run three child processes of up to 60 s each
 	})
 }
 
@@ -562,6 +564,20 @@ func runRobustStream(c *ctx) error {
 				func(g string) []string {
 					return []string{"signed-hostile:" + kind + ":" + strings.Join(touched, "+") + ":" + strings.Fields(g)[0]}
 				})
+		}
+	}
+	// hostile declared lengths in front of, and after, a valid CAR (every container reader)
+	if car, err := writeWith("car", false, sealedSet(c, 1)); err == nil {
+		for _, hv := range hostileVarints {
+			for _, b := range [][]byte{append(append([]byte(nil), hv...), car...), append(append(append([]byte(nil), car...), hv...), 1, 2, 3), hv} {
+				for _, e := range []string{"container.FromCar", "container.FromCarBase64", "container.FromCbor"} {
+					in := b
+					if e == "container.FromCarBase64" {
+						in = []byte(base64.StdEncoding.EncodeToString(b))
+					}
+					emit(e, in, "hostile-length")
+				}
+			}
 		}
 	}
 	// data with integers beyond int64 offered to policy matching
